@@ -31,7 +31,7 @@ theorem SameAcct.ofFrame {mi : Nat} {s t : Fw σ} (h : Frame mi s t) : SameAcct 
 theorem walkSameAcct : WalkCore ρ (SameAcct (σ := σ)) where
   refl := SameAcct.refl
   trans := SameAcct.trans
-  transition j ev s := SameAcct.ofFrame (transition_reach ρ FUEL j ev s).frame
+  transition j ev s _ := SameAcct.ofFrame (transition_reach ρ FUEL j ev s).frame
   decrement j s _ := SameAcct.ofFrame (decrementLimit_reach ρ j s).frame
   fault s f := ⟨by simp, by simp, fun i => by simp [acctAt]⟩
   signal _ _ := ⟨rfl, rfl, fun _ => rfl⟩
@@ -176,10 +176,10 @@ theorem processEvent_acct (e : TEvent) (s : Fw σ) :
     intro t ht; rw [ht.ofFw, mapIdx_id]; rfl
   unfold processEvent
   cases e with
-  | normalRecv => simpa [Acct.event, Acct.gEvent, Acct.rEvent, Acct.ofFw] using hid _ (W.transitionAll _ s)
-  | paddingRecv => simpa [Acct.event, Acct.gEvent, Acct.rEvent, Acct.ofFw] using hid _ (W.transitionAll _ s)
-  | tunnelRecv => simpa [Acct.event, Acct.gEvent, Acct.rEvent, Acct.ofFw] using hid _ (W.transitionAll _ s)
-  | tunnelSent => simpa [Acct.event, Acct.gEvent, Acct.rEvent, Acct.ofFw] using hid _ (W.transitionAll _ s)
+  | normalRecv => simpa [Acct.event, Acct.gEvent, Acct.rEvent, Acct.ofFw] using hid _ (W.transitionAll _ (by decide) s)
+  | paddingRecv => simpa [Acct.event, Acct.gEvent, Acct.rEvent, Acct.ofFw] using hid _ (W.transitionAll _ (by decide) s)
+  | tunnelRecv => simpa [Acct.event, Acct.gEvent, Acct.rEvent, Acct.ofFw] using hid _ (W.transitionAll _ (by decide) s)
+  | tunnelSent => simpa [Acct.event, Acct.gEvent, Acct.rEvent, Acct.ofFw] using hid _ (W.transitionAll _ (by decide) s)
   | normalSent =>
     simp only []
     have := acctLoop_fold ({ s with g := { s.g with normalSent := s.g.normalSent + 1 } } : Fw σ)
@@ -208,13 +208,13 @@ theorem processEvent_acct (e : TEvent) (s : Fw σ) :
         have : s.rt[mi]? = none := List.getElem?_eq_none hge
         simp [acctAt, this]
       · exact (AcctBump.modRt _ mi _ _ (fun _ => rfl)).sameAcct
-          (W.transDec mi .paddingSent _ (fun p => !p.2 && notEnded p.1 mi)
+          (W.transDec mi .paddingSent (by decide) _ (fun p => !p.2 && notEnded p.1 mi)
             (fun p hp => by simp only [Bool.and_eq_true] at hp; exact hp.2))
     rw [hb.ofFw]
     simp only [Acct.event, Acct.gEvent, Acct.rEvent, Acct.ofFw]
   | blockingBegin m =>
     simp only []
-    refine Eq.trans (SameAcct.ofFw (W.foldl _ (fun s mi => W.transDec mi .blockingBegin s
+    refine Eq.trans (SameAcct.ofFw (W.foldl _ (fun s mi => W.transDec mi .blockingBegin (by decide) s
       (fun p => !p.2 && notEnded p.1 mi && mi == m)
       (fun p hp => by simp only [Bool.and_eq_true] at hp; exact hp.1.2)) _ _)) ?_
     simp only [Acct.event, Acct.gEvent, Acct.rEvent, Acct.ofFw, mapIdx_id]
@@ -261,13 +261,13 @@ theorem processEvent_acct (e : TEvent) (s : Fw σ) :
     split
     · simpa [Acct.event, Acct.gEvent, Acct.rEvent, Acct.ofFw] using hid _ (SameAcct.refl s)
     · simpa [Acct.event, Acct.gEvent, Acct.rEvent, Acct.ofFw] using hid _
-        (W.transDec mi .timerBegin s (fun p => !p.2 && notEnded p.1 mi)
+        (W.transDec mi .timerBegin (by decide) s (fun p => !p.2 && notEnded p.1 mi)
           (fun p hp => by simp only [Bool.and_eq_true] at hp; exact hp.2))
   | timerEnd mi =>
     simp only []
     split
     · simpa [Acct.event, Acct.gEvent, Acct.rEvent, Acct.ofFw] using hid _ (SameAcct.refl s)
-    · simpa [Acct.event, Acct.gEvent, Acct.rEvent, Acct.ofFw] using hid _ (W.transition mi .timerEnd s)
+    · simpa [Acct.event, Acct.gEvent, Acct.rEvent, Acct.ofFw] using hid _ (W.transition mi .timerEnd s (by decide))
 
 
 theorem triggerEvents_acct (es : List TEvent) (t : Int) (s : Fw σ) :
